@@ -3,7 +3,7 @@
 # Applies a seeded change to /repo, runs one check, and undoes the change straight afterwards.
 set -u
 P="$1"; [ -d "$P" ] && P="$P/patch.diff"
-ID="$2"; TIER="${3:-quick}"
+P="$(realpath "$P")"; ID="$2"; TIER="${3:-quick}"
 git -C /repo diff --quiet || { echo "/repo has uncommitted changes"; exit 3; }
 git -C /repo apply "$P" || { echo "PATCH-FAILED $P"; exit 3; }
 /verif/check "$ID" "$TIER"; RC=$?
